@@ -90,8 +90,8 @@ DictEntries(c, rank, n) ==
                   ELSE [n |-> d, dec |-> FALSE, sub |-> <<>>])] >>
 ToDict(c, rank) == [m |-> c.mother, entries |-> DictEntries(c, rank, c.mother)]
 
-\* reading a dictionary back: the modes found, or "reject" (several modes for one
-\* particle, or two occurrences of a particle decaying differently)
+\* reading a dictionary back: [ok, chain]; ok = FALSE (rejected) for several modes for one
+\* particle, or two occurrences of a particle decaying differently
 RECURSIVE ModesIn(_, _)
 ModesIn(m, entries) ==   \* set of <<name, mode>> pairs found below
     UNION { {<<m, [bf |-> entries[i].bf, meta |-> entries[i].meta,
@@ -106,8 +106,10 @@ SingleEntries(entries) ==
 FromDict(d) ==
     LET pairs == ModesIn(d.m, d.entries)
         names == {p[1] : p \in pairs}
-    IN IF ~SingleEntries(d.entries) \/ \E p, q \in pairs : p[1] = q[1] /\ p[2] # q[2] THEN "reject"
-       ELSE [mother |-> d.m, decays |-> [n \in names |-> (CHOOSE p \in pairs : p[1] = n)[2]]]
+    IN IF ~SingleEntries(d.entries) \/ \E p, q \in pairs : p[1] = q[1] /\ p[2] # q[2]
+       THEN [ok |-> FALSE, chain |-> [mother |-> d.m, decays |-> <<>>]]
+       ELSE [ok |-> TRUE,
+             chain |-> [mother |-> d.m, decays |-> [n \in names |-> (CHOOSE p \in pairs : p[1] = n)[2]]]]
 
 \* C13: the tree a descriptor must determine ([m, leaf, kids], order-insensitive via CanonTree)
 RECURSIVE TreeOf(_, _)
